@@ -108,7 +108,8 @@ Clauses(pre, e, post) == [
                            => e.ret = e.expect,
   C09_RateRange      |-> (e.op = "rate" /\ Ok(e) /\ e.tree)
                            => e.retnum.m1 \/ e.retnum.inrange,
-  C09_RateFrame      |-> (e.op \in {"rate", "rate_passive"})
+  C09_RateFrame      |-> (e.op \in {"rate", "rate_passive", "rate_fault",
+                                    "get_rater_kw"})
                            => LibPart(post) = LibPart(pre),
   C09_RateTotalPassive |-> (e.op = "rate_passive") => Ok(e),
   \* ---------------------------------------------------------------- C10
@@ -124,6 +125,11 @@ Clauses(pre, e, post) == [
                           /\ Ok(e))
                            => /\ post.data = e.fresh
                               /\ post.pipe = e.p /\ post.pipe_fp = e.p,
+  \* a rating with a caller-owned training set that was edited in place
+  \* since an earlier call is the rating for its present content
+  C10_RateArgByValue |-> (e.op = "rate" /\ e.via = "obj" /\ Ok(e)
+                          /\ ~e.pseudo /\ Fitted(pre))
+                           => e.ret = e.expect,
   C10_GetInitFrame   |-> (e.op = "getinit" /\ e.key = "none")
                            => LibPart(post) = LibPart(pre)
  ]
